@@ -8,6 +8,7 @@ import GoZero.C11.Model
 import GoZero.C11.Containers
 import GoZero.C11.DriverSeq
 import GoZero.C11.Api
+import GoZero.C11.SqlParse
 namespace GoZero.C11.Tie
 open GoZero.Extracted.C11
 
@@ -447,5 +448,49 @@ theorem tie_delegation_args :
     newShutdownCalls = ["proc.AddShutdownListener(func() { executor.Flush() })", "executor.Flush()"] ∧
     executeTasksCalls = ["pe.doneExecution()", "pe.hasTasks(tasks)",
       "threading.RunSafe(func() { pe.container.Execute(tasks) })", "pe.container.Execute(tasks)"] := by decide
+
+/-! ### parseInsertStmt: the Lean model SqlParse.lean against the source (decisions semantic, slices by text; the
+model is also RUN against the real parser on the harness's statements by the sqlx driver) -/
+
+/-- what Go's `strings.Index` / `IndexByte` / `LastIndexByte` return for the model's `Option Nat` -/
+def goIdx : Option Nat → Int
+  | none => -1
+  | some n => (n : Int)
+
+/-- the decisions of `parseInsertStmt`, translated from the source, are the model's: `pos0` (= found at a position
+> 0) is the guard `pos <= 0` / `right > 0` / `left > 0`; the two rejection tests after the scan are `variables == 0` and
+`columns > 0 && columns != variables`; the result is sliced as the model slices it; the keyword is `values` -/
+theorem tie_parseInsertStmt_sem (o : Option Nat) (v c : Nat) :
+    (pos0 o).isNone = parseBadSqlFn (goIdx o) ∧ (pos0 o).isSome = parseParenFoundFn (goIdx o) ∧
+    decide (v = 0) = parseNoVariablesFn (v : Int) ∧
+    decide (c > 0 ∧ c ≠ v) = parseMismatchFn (c : Int) (v : Int) ∧
+    sqlxValuesKeyword = "values" ∧ GoZero.C11.valuesKeyword = sqlxValuesKeyword.toList ∧
+    parseResultFields = ["prefix: stmt[:pos+len(valuesKeyword)]", "valueFormat: valueFormat", "suffix: suffix"] ∧
+    parseValueFormatAssigns = ["var valueFormat string", "valueFormat = stmt[pos+left : pos+left+right+1]"] ∧
+    parseSuffixAssigns = ["var suffix string", "suffix = strings.TrimSpace(stmt[pos+left+right+1:])"] ∧
+    parseIndexCalls = ["strings.ToLower(stmt)", "strings.Index(lower, valuesKeyword)",
+      "strings.LastIndexByte(lower[:pos], ')')", "strings.LastIndexByte(lower[:right], '(')",
+      "strings.IndexByte(lower[pos:], '(')", "strings.IndexByte(lower[pos+left:], ')')",
+      "strings.TrimSpace(stmt[pos+left+right+1:])"] := by
+  refine ⟨?_, ?_, ?_, ?_, by decide, by decide, by decide, by decide, by decide, by decide⟩
+  · cases o with
+    | none => simp [pos0, goIdx, parseBadSqlFn]
+    | some n =>
+      cases n with
+      | zero => simp [pos0, goIdx, parseBadSqlFn]
+      | succ k =>
+        have : ¬ ((k : Int) + 1 ≤ 0) := by omega
+        simp [pos0, goIdx, parseBadSqlFn, this]
+  · cases o with
+    | none => simp [pos0, goIdx, parseParenFoundFn]
+    | some n =>
+      cases n with
+      | zero => simp [pos0, goIdx, parseParenFoundFn]
+      | succ k =>
+        have : (0 : Int) < (k : Int) + 1 := by omega
+        simp [pos0, goIdx, parseParenFoundFn, this]
+  · simp [parseNoVariablesFn]
+  · simp only [parseMismatchFn]
+    by_cases h1 : c > 0 <;> by_cases h2 : c = v <;> simp [h1, h2] <;> omega
 
 end GoZero.C11.Tie
